@@ -492,7 +492,8 @@ func (w *world) loginCases(r *c.Rng, n int, cases *[]c.Case) {
 }
 
 // ------------------------------------------------------------------------------------------------
-// hand-written cases: witnesses of the known findings and boundary cases, run first
+// hand-written cases, run first: the witnesses of C03-K3/C12-K1, C12-K2 and C18-K3 (outside the guards of the composite
+// clauses: judged for model = implementation agreement only, nothing is attributed to C01) and boundary cases
 
 func (w *world) simpleHost() (string, int) {
 	for i, u := range w.spec.Ups {
